@@ -81,4 +81,13 @@ Definition tagged_step (d r : N) (acc : bool * bool) (x : hop) : bool * bool :=
 Definition tagged_since (d r : N) (h : list hop) : bool :=
   snd (fold_left (tagged_step d r) h (false, false)).
 
+(* ---------- nothing is invented, across crashes ---------- *)
+Definition hop_op (x : hop) : op := match x with Done o | Crashed o _ => o end.
+(* some operation of the history (completed or interrupted) pushed verified content named d *)
+Definition pushed_in (d : N) (h : list hop) : Prop :=
+  exists x c m, In x h /\ hop_op x = Push d c m /\ H c = d.
+(* some operation of the history (completed or interrupted) was Tag d r *)
+Definition tagged_in (d r : N) (h : list hop) : Prop :=
+  exists x, In x h /\ hop_op x = Tag d r.
+
 End Spec.
